@@ -126,6 +126,16 @@ func NewContextualStore(store *Store) *Store {
 		},
 	}
 }
+// deletedSet is the current set of deleted datasets. DeleteDataset replaces the map of the store it works on, so a
+// contextual store (the store a job's transform queries through, created when the job is added) asks its parent
+// instead of keeping the map it was created with: datasets deleted later would stay visible to it
+func (s *Store) deletedSet() map[uint32]bool {
+	if s.parent != nil {
+		return s.parent.deletedSet()
+	}
+	return s.deletedDatasets
+}
+
 func (bl BadgerLogger) Errorf(format string, v ...interface{}) { bl.Logger.Errorf(format, v...) }
 func (bl BadgerLogger) Infof(format string, v ...interface{}) {
 	// find parent in call stack
@@ -746,7 +756,7 @@ func (s *Store) GetEntityAtPointInTimeWithInternalID(
 		currentDatasetID = binary.BigEndian.Uint32(key[10:])
 
 		// check if dataset has been deleted, or must be excluded
-		datasetDeleted := s.deletedDatasets[currentDatasetID]
+		datasetDeleted := s.deletedSet()[currentDatasetID]
 		datasetIncluded := len(targetDatasetIds) == 0 // no specified datasets means no restriction - all datasets are allowed
 		if !datasetIncluded {
 			for _, id := range targetDatasetIds {
@@ -1146,7 +1156,7 @@ func (s *Store) GetRelatedAtTime(from *RelatedFrom, limit int) ([]qresult, *Rela
 					}
 				}
 
-				if s.deletedDatasets[datasetID] || !datasetIncluded {
+				if s.deletedSet()[datasetID] || !datasetIncluded {
 					continue
 				}
 
@@ -1284,7 +1294,7 @@ func (s *Store) GetRelatedAtTime(from *RelatedFrom, limit int) ([]qresult, *Rela
 					}
 				}
 
-				if s.deletedDatasets[datasetID] || !datasetIncluded {
+				if s.deletedSet()[datasetID] || !datasetIncluded {
 					continue
 				}
 
